@@ -270,7 +270,7 @@ def work(job):
 
 def main():
     chk = core.Check(ID)
-    n = chk.scale(4000, 150000)
+    n = chk.scale(10000, 200000)
     chk.rule = ('document i = f(VERIF_SEED, i): 0-6 headings (ATX with/without closing #, Setext, manual labels, punctuation/Unicode titles), 0-5 footnotes, 0-4 citations '
                 '(plain, locator, ;, not-cited), 0-3 glossary entries, inline notes, notes nested in notes/lists/quotes/tables, reused and undefined labels, cross-references '
                 'to headings and captioned tables, {{TOC}} variants, base header level; x {default, random footnote anchors, random labels, no labels, complete}; '
